@@ -1015,35 +1015,47 @@ def _to_copy(m, func, args, kwargs):
             out.copy_(fixed.to(out.dtype))
         m.clear(out)
         return out
-    if out.dtype.is_floating_point and src.dtype.is_floating_point and out.dtype != src.dtype and \
-            torch.finfo(out.dtype).eps > torch.finfo(src.dtype).eps and any(x is not None for x in ts):
-        # symbolic data cast to a LOWER floating-point precision inside the code under test: invisible over the reals, recorded so
-        # that harnesses can state "no precision-reducing cast of the caller's data" as an obligation
-        f_, where = sys._getframe(1), None
-        for _ in range(60):
-            if f_ is None:
-                break
-            fn_ = f_.f_code.co_filename
-            if '/pypose/' in fn_ and '/verif/' not in fn_:
-                where = '%s:%s' % (fn_.split('/pypose/', 1)[1], f_.f_code.co_qualname)
-                break
-            f_ = f_.f_back
-        if where is not None:
-            m.ctx.downcasts = getattr(m.ctx, 'downcasts', []) + ['%s -> %s in pypose/%s' % (src.dtype, out.dtype, where)]
+    _record_downcast(m, src, out, ts)
     if out.dtype.is_floating_point:
         ts = [None if x is None else to_real(x) for x in ts]
     elif out.dtype == torch.bool:
         ts = [None if x is None else to_bool(x) for x in ts]
     else:
-        # float -> int: truncation toward zero
-        def tr(x):
-            if x is None or z3.is_int(x):
-                return x
-            x = to_real(x)
-            return z3.If(x >= 0, z3.ToInt(x), -z3.ToInt(-x))
-        ts = [tr(x) for x in ts]
+        ts = [_trunc_term(x) for x in ts]
     m.write(out, ts, m.poisons(src) if m.ctx.track_poison else None)
     return out
+
+
+def _trunc_term(x):
+    # float -> int: truncation toward zero
+    if x is None or z3.is_int(x):
+        return x
+    x = to_real(x)
+    return z3.If(x >= 0, z3.ToInt(x), -z3.ToInt(-x))
+
+
+def _record_downcast(m, src, out, ts):
+    """symbolic data cast to a LOWER floating-point precision (or from float to an integer type) inside the code under test:
+    invisible (or nearly) over the reals, recorded so that harnesses can state "no precision-reducing cast of the caller's data"
+    as an obligation.  Called for _to_copy and for copy_ (slice assignment into a buffer of another dtype)."""
+    if not (isinstance(src, torch.Tensor) and src.dtype.is_floating_point and out.dtype != src.dtype and any(x is not None for x in ts)):
+        return
+    if out.dtype.is_floating_point:
+        if not torch.finfo(out.dtype).eps > torch.finfo(src.dtype).eps:
+            return
+    elif out.dtype == torch.bool:
+        return
+    f_, where = sys._getframe(2), None
+    for _ in range(60):
+        if f_ is None:
+            break
+        fn_ = f_.f_code.co_filename
+        if '/pypose/' in fn_ and '/verif/' not in fn_:
+            where = '%s:%s' % (fn_.split('/pypose/', 1)[1], f_.f_code.co_qualname)
+            break
+        f_ = f_.f_back
+    if where is not None:
+        m.ctx.downcasts = getattr(m.ctx, 'downcasts', []) + ['%s -> %s in pypose/%s' % (src.dtype, out.dtype, where)]
 
 
 @handler('aten.copy_.default')
@@ -1051,8 +1063,11 @@ def _copy_(m, func, args, kwargs):
     dst, src = args[0], args[1]
     cols = _bcast(m, [src], dst.shape, m.terms)[0]
     pcols = _bcast(m, [src], dst.shape, m.poisons)[0] if m.ctx.track_poison else None
+    _record_downcast(m, src, dst, cols)
     if dst.dtype.is_floating_point:
         cols = [None if x is None else to_real(x) for x in cols]
+    elif dst.dtype != torch.bool and isinstance(src, torch.Tensor) and src.dtype.is_floating_point:
+        cols = [_trunc_term(x) for x in cols]
     out = func(*args, **kwargs)
     # concrete source elements: value is now in dst's payload -> concrete
     m.write(dst, cols, pcols)
